@@ -13,6 +13,7 @@
    when no lookup is answered through two imports (C19_unused_warning_iff_removable_partial). *)
 From Coq Require Import List NArith Bool.
 From PV Require Import Model.Visibility Model.Resolve Model.UnusedImports Proofs.UnusedImports.
+From PV Require Import Model.ExplicitFlag Proofs.ExplicitFlag.
 Import ListNotations.
 
 (* removing an import that no lookup marked leaves every reference exactly as it was: results,
@@ -91,6 +92,27 @@ Theorem C19_reference_programs_are_go_resolve : forall U qd path nm ot,
   = go_resolve U path nm ot.
 Proof. exact go_resolve_prog_is_go_resolve_lemma. Qed.
 Print Assumptions C19_reference_programs_are_go_resolve.
+
+(* ---- which files are checked at all (compiler.go explicitFile, Model/ExplicitFlag.v) ----
+   ef_checked req sched p: after Compile(req...) whose tasks ask for their imports in the order
+   sched, the result of file p has explicitFile set, i.e. task.link calls CheckForUnusedImports.
+   The request loop runs under the executor lock (compile_run); then, for every request list
+   (any order, duplicates) and every schedule, the checked files are exactly the requested ones *)
+Theorem C19_checked_iff_requested : forall req sched p, ef_checked req sched p = true <-> In p req.
+Proof. exact checked_iff_requested_lemma. Qed.
+Print Assumptions C19_checked_iff_requested.
+
+Theorem C19_checked_independent_of_order_and_schedule : forall req1 req2 sched1 sched2,
+  (forall p, In p req1 <-> In p req2) -> forall p, ef_checked req1 sched1 p = ef_checked req2 sched2 p.
+Proof. exact checked_schedule_order_independent_lemma. Qed.
+Print Assumptions C19_checked_independent_of_order_and_schedule.
+
+(* the lock is what makes it so: when compileLocked calls of the loop and of the tasks may
+   interleave, a requested file can end up unchecked *)
+Theorem C19_request_loop_needs_lock :
+  exists evs p, In (p, true) evs /\ checked_in (run_events [] evs) p = false.
+Proof. exact unlocked_loop_refuted_lemma. Qed.
+Print Assumptions C19_request_loop_needs_lock.
 
 (* non-vacuity: the witness file set; import 2 is warned about, import 1 is used, the type
    resolves with either one of them and not without both *)
